@@ -452,9 +452,9 @@ def check_reports(ctx, stack, reports, tag):
                 ctx.mismatch(f"mapping/{kind}/{tag}", {"tpv": tpv}, real, mo)
 
 
-def check_gdt(ctx, n):
+def check_gdt(ctx, n, extra=()):
     G = ctm.GenerationDeltaTime
-    stamps = [1_700_000_000_123, 2172654871173, 2187050824983, 1085657168896, ITS_EPOCH_MS - LEAP_MS, ITS_EPOCH_MS]
+    stamps = list(extra) + [1_700_000_000_123, 2172654871173, 2187050824983, 1085657168896, ITS_EPOCH_MS - LEAP_MS, ITS_EPOCH_MS]
     eras = [(1_600_000_000_000, 1_900_000_000_000), (2_147_000_000_000, 2_200_000_000_000), (ITS_EPOCH_MS, 4_102_444_800_000)]
     for _ in range(n):
         lo, hi = ctx.rng.choice(eras)
@@ -513,7 +513,7 @@ def run(ctx):
         check_reports(ctx, st, systematic_reports(), "systematic")
         n = ctx.scale(5000, 130000)
         check_reports(ctx, st, [gen_report(ctx.rng, i) for i in range(n)], "random")
-        check_gdt(ctx, ctx.scale(3000, 200000))
+        check_gdt(ctx, ctx.scale(3000, 200000), [c["ms"] for c in corp if c.get("kind") == "gdt"])
 
 
 def search(ctx):
